@@ -57,6 +57,8 @@ impl<'h> FindMatchesImpl<'h> {
         // Split the input a byte position `offset` and create a new char_indices iterator.
         self.char_indices = self.input[offset..].char_indices();
         self.last_position = 0;
+        // The last character is the one that precedes the new position.
+        self.last_char = self.input[..offset].chars().next_back().unwrap_or('\0');
         self.offset = offset;
     }
 
@@ -85,7 +87,7 @@ impl<'h> FindMatchesImpl<'h> {
             } else {
                 // The iterator is exhausted.
                 // We should update the line offsets with the last character of the haystack.
-                self.record_line_offset(self.last_position + self.offset, '\0');
+                self.record_line_offset(self.input.len(), '\0');
                 break;
             }
         }
